@@ -269,6 +269,14 @@ func executeOneStep(
 	stripNode := step.ParentType != typeNameQuery && step.ParentType != typeNameSubscription && step.ParentType != typeNameMutation
 	if stripNode {
 		ctx.logger.Debug("Should strip node")
+		// the service was asked for an object that another service just told us about. An answer without
+		// that object (and without an error of its own) is a failure of the join and has to be reported.
+		// The one exception is an id that came in through a field of type Node (the gateway's own node
+		// field): nobody knows which services own such an id, so a service may rightfully not know it.
+		if node, ok := queryResult["node"]; (!ok || node == nil) && queryErr == nil && step.ParentType != "Node" {
+			return nil, nil, fmt.Errorf("service did not return the %s with id %v", step.ParentType, variables["id"])
+		}
+
 		// get the result from the response that we have to stitch there
 		extractedResult, err := executorExtractValue(ctx, queryResult, resultLock, []string{"node"})
 		if err != nil {
